@@ -134,4 +134,39 @@ C18Trunc(n, full, cut) ==
     IN Tri(Sequential(n) /\ NoRecover(n) /\ full.res.ok /\ ~cut.res.ok /\ IsConstructError(cut.res.err) /\ j < full.res.p,
            /\ IsPrefixSeq(cut.res.path, names)
            /\ (~AnyNode(n, PreReading)) => cut.res.path = names)
+
+\* C10  bit-level packing: the built bytes are the big-endian integer made of the fields' two's-complement patterns.
+\* cs = <<build of Bitwise(Struct(flat fields)) from a dict>>; fields: BitsInteger (const width), Flag, Padding, Bit/Nibble/Octet
+FieldWidth(f) == LET m == Core(IF f.k = "Renamed" THEN f.sub ELSE f) IN
+    CASE m.k = "BitsInteger" -> AsInt(m.len.v) [] m.k = "Flag" -> 1 [] m.k = "Padded" -> AsInt(m.len.v) [] OTHER -> -1
+FlatBitFields(n) == LET m == Core(n) IN
+    m.k \in {"Transformed", "Restreamed"} /\ Core(m.sub).k = "Struct" /\
+    \A i \in 1..Len(Core(m.sub).subs) :
+        LET f == Core(m.sub).subs[i]  g == Core(IF f.k = "Renamed" THEN f.sub ELSE f) IN
+        /\ g.k \in {"BitsInteger", "Flag", "Padded"}
+        /\ (g.k = "BitsInteger" => g.len.x = "const" /\ g.swapped.x = "const")
+        /\ (g.k = "Padded" => g.len.x = "const" /\ Core(g.sub).k = "Pass")
+\* the pattern of one field as an integer in [0, 2^w): value mod 2^w, bytes reversed for swapped fields
+RECURSIVE RefPack(_, _, _, _)
+RefPack(fields, obj, i, acc) ==       \* acc: native integer so far (region <= 24 bits)
+    IF i > Len(fields) THEN acc
+    ELSE LET f == fields[i]
+             g == Core(IF f.k = "Renamed" THEN f.sub ELSE f)
+             w == FieldWidth(f)
+             v == IF f.k = "Renamed" /\ DHas(obj, f.name) THEN DGet(obj, f.name) ELSE VNone
+             raw == CASE g.k = "Flag" -> IF Truthy(v) THEN 1 ELSE 0
+                      [] g.k = "Padded" -> 0
+                      [] OTHER -> LET x == Num(v) IN IF x < 0 THEN x + Pow2(w) ELSE x
+             pat == IF g.k = "BitsInteger" /\ Truthy(g.swapped.v) THEN BytesToNat(Rev(BitsToBytes(NatToBits(raw, w)))) ELSE raw
+         IN RefPack(fields, obj, i + 1, acc * Pow2(w) + pat)
+RECURSIVE SumWidths(_, _)
+SumWidths(fields, i) == IF i > Len(fields) THEN 0 ELSE FieldWidth(fields[i]) + SumWidths(fields, i + 1)
+C10BitRef(n, b) ==
+    LET fields == Core(Core(n).sub).subs
+        total == SumWidths(fields, 1)
+    IN Tri(FlatBitFields(n) /\ b.res.ok /\ b.arg.t = "dict" /\ total <= 24 /\ total % 8 = 0
+           /\ \A i \in 1..Len(fields) : (Core(IF fields[i].k = "Renamed" THEN fields[i].sub ELSE fields[i]).k = "BitsInteger"
+                   => fields[i].k = "Renamed" /\ DHas(b.arg, fields[i].name) /\ IsIntLike(DGet(b.arg, fields[i].name))
+                      /\ NumOk(DGet(b.arg, fields[i].name))),
+           b.res.v.b = PadLeft(NatToBytes(RefPack(fields, b.arg, 1, 0)), total \div 8))
 =============================================================================
